@@ -7,13 +7,16 @@
 #ifndef BX_N
 #define BX_N 3
 #endif
+#ifndef BX_ATOM
+#define BX_ATOM 1        /* the name being read: which atom it is is immaterial (the tables are symmetric in the atoms) */
+#endif
 mop g_pool[POOL]; unsigned g_npool; bx_call g_calls[CMAX]; unsigned g_ncalls; int verif_raised;
 static mtree g_kids[BX_N]; static mtree T; static mlayout L; static mbindings g_root; mbindings g_bn; muprefs g_up;
 _Bool g_has_local[NATOMS], g_has_upv[NATOMS]; mbinding g_local[NATOMS]; mupref g_upv[NATOMS]; midmap g_refd;
 unsigned g_npreds; const mtree *g_pred_tree; const mlayout *g_pred_lay; const mbindings *g_pred_scope; const muprefs *g_pred_up; unsigned long g_pred_rdv;
 unsigned g_nbinds; const mbindings *g_bind_scope; matom g_bind_name; const mop *g_bind_op; const mlayout *g_rdv_lay; unsigned long g_rdv_inner;
 int nondet_int(void); _Bool nondet_bool(void);
-static unsigned long L0, g_rdv;
+static unsigned long L0, g_rdv; static int g_fixed_name;
 static mop *g_upstream;
 #define CHECK(c, msg) __CPROVER_assert(c, msg)
 
@@ -24,11 +27,7 @@ static mop *run(int tt, unsigned long n)
   L.m_size = nondet_ulong(); __CPROVER_assume(L.m_size <= (1UL << 40)); L0 = L.m_size;
   g_bn.m_super = &g_root; g_root.m_super = 0; g_rdv = nondet_ulong();
   g_npool = 0; g_ncalls = 0; g_nbinds = 0; g_npreds = 0; verif_raised = 0; T.m_cstval = nondet_ulong();
-#ifdef BX_ATOM
-  T.m_str = BX_ATOM;       /* which atom the name is is immaterial: the tables are symmetric in the atoms */
-#else
-  T.m_str = nondet_int(); __CPROVER_assume(T.m_str >= 0 && T.m_str < NATOMS);
-#endif
+  if (!g_fixed_name) { T.m_str = nondet_int(); __CPROVER_assume(T.m_str >= 0 && T.m_str < NATOMS); }
   g_upstream = new_op(K_UPSTREAM);
   mop *r = build_exec(&T, &L, g_rdv, g_upstream, &g_bn, &g_up);
   CHECK(verif_raised != 0 || r != 0, "build_exec returns an operator unless it raises");
@@ -169,28 +168,36 @@ static void choose_names(void)
     g_upv[a].builtin = nondet_bool(); g_upv[a].bi = &g_builtins[NATOMS + a]; g_upv[a].id = (unsigned)nondet_int();
   }
 }
+/* what the scope chain / the enclosing block's table know about the name being read: unknown, a binder (an up-value), a builtin --
+   enumerated concretely (3 x 3 combinations, each run on a fresh model state), the up-value id stays symbolic */
+static void read_case(int lc, int uc)
+{
+  for (int a = 0; a < NATOMS; ++a) { g_has_local[a] = 0; g_has_upv[a] = 0; }
+  mop *r = 0;
+  T.m_str = BX_ATOM; g_fixed_name = 1;
+  matom n = BX_ATOM;
+  g_has_local[n] = lc != 0; g_local[n].m_bind = &g_binders[n]; g_local[n].m_bi = lc == 2 ? &g_builtins[n] : 0;
+  g_has_upv[n] = uc != 0; g_upv[n].builtin = uc == 2; g_upv[n].bi = &g_builtins[NATOMS + n]; g_upv[n].id = (unsigned)nondet_int();
+  r = run(tree_type__READ, 0);
+  CHECK(g_ncalls == 0 && g_nbinds == 0, "a read builds no sub-expression and binds nothing");
+  if (lc == 1) {         /* the scope chain wins over the up-value table: inner binders shadow outer ones */
+    CHECK(verif_raised == 0 && r != 0 && r->kind == K_APPLY && r->lay == &L && r->extra == 1, "reading a name applies its value if it is a block");
+    CHECK(r->a[0]->kind == K_READ && r->a[0]->a[0] == g_upstream && r->a[0]->a[1] == &g_binders[n], "the read is wired to the binder the scope chain resolves the name to, whatever the enclosing block's up-value table knows");
+  } else if (lc == 2)
+    CHECK(verif_raised == 0 && r != 0 && r->kind == K_BUILTIN && r->bi == &g_builtins[n] && r->a[0] == g_upstream, "a name bound to a builtin builds that builtin");
+  else if (uc == 1) {
+    CHECK(verif_raised == 0 && r != 0 && r->kind == K_APPLY && r->lay == &L && r->extra == 1, "reading an up-value applies it if it is a block");
+    CHECK(r->a[0]->kind == K_UPREAD && r->a[0]->a[0] == g_upstream && r->a[0]->extra == g_upv[n].id && r->a[0]->extra2 == g_rdv, "the up-value read uses the id the table gave this name and the block's rendezvous slot");
+  } else if (uc == 2)
+    CHECK(verif_raised == 0 && r != 0 && r->kind == K_BUILTIN && r->bi == &g_builtins[NATOMS + n] && r->a[0] == g_upstream, "a builtin reached through the up-value table builds that builtin");
+  else
+    CHECK(verif_raised != 0, "reading an unbound name is a compile-time error");
+}
 void h_bx_read(void)
 {
-  choose_names();
-  mop *r = run(tree_type__READ, 0);
-  matom n = T.m_str;
-  CHECK(g_ncalls == 0 && g_nbinds == 0, "a read builds no sub-expression and binds nothing");
-  if (g_has_local[n]) {          /* the scope chain wins over the up-value table: inner binders shadow outer ones */
-    CHECK(verif_raised == 0, "a bound name compiles");
-    if (g_local[n].m_bi) CHECK(r->kind == K_BUILTIN && r->bi == g_local[n].m_bi && r->a[0] == g_upstream, "a name bound to a builtin builds that builtin");
-    else {
-      CHECK(r->kind == K_APPLY && r->lay == &L && r->extra == 1, "reading a name applies its value if it is a block");
-      CHECK(r->a[0]->kind == K_READ && r->a[0]->a[0] == g_upstream && r->a[0]->a[1] == &g_binders[n], "the read is wired to the binder the scope chain resolves the name to");
-    }
-  } else if (g_has_upv[n]) {
-    CHECK(verif_raised == 0, "a name known as an up-value compiles");
-    if (g_upv[n].builtin) CHECK(r->kind == K_BUILTIN && r->bi == g_upv[n].bi && r->a[0] == g_upstream, "a builtin reached through the up-value table builds that builtin");
-    else {
-      CHECK(r->kind == K_APPLY && r->lay == &L && r->extra == 1, "reading an up-value applies it if it is a block");
-      CHECK(r->a[0]->kind == K_UPREAD && r->a[0]->a[0] == g_upstream && r->a[0]->extra == g_upv[n].id && r->a[0]->extra2 == g_rdv, "the up-value read uses the id the table gave this name and the block's rendezvous slot");
-    }
-  } else
-    CHECK(verif_raised != 0, "reading an unbound name is a compile-time error");
+  for (int lc = 0; lc < 3; ++lc)
+    for (int uc = 0; uc < 3; ++uc)
+      read_case(lc, uc);
 }
 void h_bx_bind(void)
 {
